@@ -197,14 +197,15 @@ class Gen:
             foreign = any(op[0] == "foreignkey" or (op[0] == "set" and any(e[0] == "foreign" for e in op[1])) for op in record_ops)
             if foreign:
                 # a second callsite declaring the same names: its keys are not this span's
-                body.append("    static FOREIGN: tracing::__macro_support::MacroCallsite = tracing::callsite2! { name: \"foreign\", kind: tracing::metadata::Kind::SPAN, fields: %s };"
+                body.append("    let foreign: &'static tracing::__macro_support::MacroCallsite = { static __CALLSITE: tracing::__macro_support::MacroCallsite = tracing::callsite2! { name: \"foreign\", kind: tracing::metadata::Kind::SPAN, fields: %s }; &__CALLSITE };"
                             % ", ".join(d["name"] for d in decls))
             def keyexpr(which, d):
-                src = "sp.metadata().unwrap()" if which == "own" else "tracing::callsite::Callsite::metadata(&FOREIGN)"
+                src = "m" if which == "own" else "tracing::callsite::Callsite::metadata(foreign)"
                 return "%s.fields().field(%s).unwrap()" % (src, json.dumps(d["name"], ensure_ascii=False))
             for op in record_ops:
                 # op: ('declared', field index, ty) | ('undeclared', ty) | ('ownkey' / 'foreignkey', field index, ty, by reference)
                 #     | ('set', [('own' / 'foreign', field index, ty), ...])  -- a hand-built ValueSet through Span::record_all
+                # (a disabled span has no metadata: nothing to record with; the value expressions are ordinary arguments)
                 if op[0] == "declared":
                     d = decls[op[1]]
                     ty = op[2]
@@ -213,17 +214,19 @@ class Gen:
                 elif op[0] in ("ownkey", "foreignkey"):
                     d = decls[op[1]]
                     ty = op[2]
-                    body.append("    { let k = %s; sp.record(%s, %s); }" % (keyexpr(op[0][:-3], d), "&&k" if op[3] else "&k", TYPES[ty].format(i=slot)))
+                    body.append("    { let v = %s; if let Some(m) = sp.metadata() { let k = %s; sp.record(%s, v); } }"
+                                % (TYPES[ty].format(i=slot), keyexpr(op[0][:-3], d), "&&k" if op[3] else "&k"))
                     ops.append(dict(blank, field=d["name"], declared=op[0] == "ownkey", ty=ty, slot=slot))
                 elif op[0] == "set":
-                    ents, lets, items = [], [], []
+                    ents, vals, lets, items = [], [], [], []
                     for j, (which, fi, ty) in enumerate(op[1]):
                         d = decls[fi]
+                        vals.append("let v%d = %s;" % (j, TYPES[ty].format(i=slot)))
                         lets.append("let k%d = %s;" % (j, keyexpr(which, d)))
-                        items.append("(&k%d, Some(&%s as &dyn tracing::field::Value))" % (j, TYPES[ty].format(i=slot)))
+                        items.append("(&k%d, Some(&v%d as &dyn tracing::field::Value))" % (j, j))
                         ents.append({"field": d["name"], "own": which == "own", "ty": ty, "slot": slot})
                         slot += 1
-                    body.append("    { %s sp.record_all(&sp.metadata().unwrap().fields().value_set(&[%s])); }" % (" ".join(lets), ", ".join(items)))
+                    body.append("    { %s if let Some(m) = sp.metadata() { %s sp.record_all(&m.fields().value_set(&[%s])); } }" % (" ".join(vals), " ".join(lets), ", ".join(items)))
                     ops.append(dict(blank, declared=True, set=True, entries=ents))
                     continue
                 else:
